@@ -142,7 +142,10 @@ class Target(object):
 # call forms
 
 HASHABLE = [0, 1, 2, -1, 'a', 'b', '1', 'x', 'd', 'k', 2.5, None, (1,), (1, 2), ('a',), b'a',
-            frozenset([1]), 'args', 'kw', '']
+            frozenset([1]), 'args', 'kw', '', 'None', '(1,)', "b'a'", "'a'", '2.5']
+# values whose str()/repr() is another value of the pool: a key built from text must keep them apart
+TWINS = {1: '1', '1': 1, None: 'None', 'None': None, (1,): '(1,)', '(1,)': (1,), b'a': "b'a'", "b'a'": b'a',
+         'a': "'a'", "'a'": 'a', 2.5: '2.5', '2.5': 2.5}
 UNHASHABLE = [[1], [1, 2], {'a': 1}, ['a']]
 TYPED_PAIRS = [(1, 1.0), (1, True), (0, False), (2, 2.0), (0, 0.0)]
 
@@ -159,6 +162,8 @@ def assignment(rng, spec, pool, target=None):
             asg['pos'][n] = rng.choice(pool)
     if spec['var'] and not asg['defaulted']:
         asg['var'] = [rng.choice(pool) for _ in range(rng.choice([0, 0, 1, 2, 3]))]
+        if not (spec['req'] or spec['def'] or spec['kwonly'] or spec['kw']):
+            asg['var'] = [rng.choice(pool)]
     for n, has, _ in spec['kwonly']:
         if has and rng.random() < 0.5:
             asg['defaulted'].append(n)
@@ -202,6 +207,9 @@ def spell(rng, spec, asg, defaults, fixed=0):
         elif rng.random() < 0.5:
             kwds[n] = defaults[n]
     kwds.update(asg['kw'])
+    for n, v in (spec.get('_pkvals') or {}).items():
+        if n not in kwds and rng.random() < 0.3:
+            kwds[n] = v          # re-binding the partial's own value by keyword binds identically
     items = list(kwds.items())
     rng.shuffle(items)
     return args, dict(items)
@@ -229,6 +237,11 @@ def mutate(rng, spec, asg, pool, slots=None, typed_pair=False, fixed=0, near=Fal
         val = rng.choice(opts)
     else:
         opts = [v for v in pool if _ne(v, old)]
+        try:
+            if old in TWINS and rng.random() < 0.5:
+                opts = [TWINS[old]]
+        except TypeError:
+            pass
         if near and isinstance(old, float) and rng.random() < 0.7:
             opts = [old + d for d in (1e-4, -1e-4, 0.004, -0.004, 0.04, -0.04, 0.4, 4.0, 40.0)]
         if not opts:
@@ -382,6 +395,10 @@ def gen_case(rng, prop):
     if prop == 'C12':
         kind = rng.choice(['func', 'func', 'method'])
     spec = gen_spec(rng)
+    if prop == 'C10' and rng.random() < 0.15:
+        # a lone variadic positional: the only shape whose flat key is a bare, unwrapped scalar
+        spec = {'req': [], 'def': [], 'var': True, 'kwonly': [], 'kw': False}
+        kind = 'func'
     kms = gen.keymap_cfgs(info_preserving=False)
     km = rng.choice(kms)
     kk = gen.key_kind(km)
@@ -465,6 +482,7 @@ def run_case(case, prop):
         spec_call = dict(spec)
         spec_call['kwonly'] = [x for x in spec['kwonly'] if x[0] not in tgt.pk]
         spec_call['_pk'] = sorted(tgt.pk)
+        spec_call['_pkvals'] = dict(tgt.pk)
     npairs = 12
     for _ in range(npairs):
         asg = assignment(rng, spec_call, pool)
@@ -719,6 +737,19 @@ def judge_ignore(J, tgt, f, kg, rng, spec, asg, fixed, pool):
     st = rng.getstate()
     c1 = spell(rng, spec, asg, tgt.defaults, fixed)
     m = mutate(rng, spec, asg, pool, slots=cands, fixed=fixed)
+    dflt_ign = [n for n in asg['defaulted'] if (('pos', n) in slots or ('kwonly', n) in slots)]
+    if dflt_ign and rng.random() < 0.5:
+        # an ignored parameter left at its default in one call and passed explicitly in the other
+        import copy
+        n = rng.choice(dflt_ign)
+        asg2 = copy.deepcopy(asg)
+        asg2['defaulted'].remove(n)
+        where = 'kwonly' if any(n == x[0] for x in spec['kwonly']) else 'pos'
+        asg2[where][n] = rng.choice(pool)
+        if where == 'pos' and asg2['var']:
+            pass
+        m = (asg2, (where, n))
+        J.note('c11_default_vs_passed_pairs')
     if m is not None:
         asg2, slot = m
         rng.setstate(st)
@@ -759,7 +790,7 @@ def judge_ignore(J, tgt, f, kg, rng, spec, asg, fixed, pool):
                     J.bad('C11', 'ignored-argument-changed-key',
                           '%s: ignore=%r; calls %s and %s differ only in ignored %r but keys differ: %s vs %s'
                           % (which, ign, srepr(c1), srepr(c2), slot, srepr(x)[:120], srepr(y)[:120]),
-                          mech=nonflat_order_mech(tgt, case, c1, c2))
+                          mech=nonflat_order_mech(tgt, case, c1, c2) + dstar_passed_kwonly_mech(case['spec'], ign, c1, c2))
                     break
             if okk:
                 try:
@@ -812,6 +843,19 @@ def judge_ignore(J, tgt, f, kg, rng, spec, asg, fixed, pool):
 def kwonly_dstar_mech(spec, ign, slot):
     """known: ignore='**' also drops explicitly passed keyword-only *parameters*"""
     if '**' in ign and slot[0] == 'kwonly':
+        return ['dstar-drops-kwonly-parameters']
+    return []
+
+
+def dstar_passed_kwonly_mech(spec, ign, c1, c2):
+    """the same recorded defect seen from the other side: with '**' ignored, a keyword-only
+    parameter that is *passed explicitly* vanishes from the key while an omitted one keeps its
+    default there - so the witness is: '**' in ignore and one call spells a keyword-only
+    parameter out that the other leaves to its default"""
+    if '**' not in ign:
+        return []
+    ko = [x[0] for x in spec['kwonly']]
+    if any((n in c1[1]) != (n in c2[1]) for n in ko):
         return ['dstar-drops-kwonly-parameters']
     return []
 
@@ -891,6 +935,34 @@ def judge_round(J, tgt, f, kg, rng, spec, asg, fixed):
     except Exception:
         J.note('oracle_dropped')
         return
+    for c in (c1, c2):
+        try:
+            if tgt.kind == 'method':
+                kg(tgt.inst, *c[0], **c[1])
+            else:
+                kg(*c[0], **c[1])
+        except Exception:
+            continue
+        J.note('c12_keygen_passthrough_checks')
+        try:
+            ar, kw2 = kg.__args__()
+            orig = list(c[0]) + list(c[1].values())
+            got = list(ar) + list(kw2.values())
+            if tgt.kind == 'method':
+                got = got[1:]
+            if len(got) != len(orig) or not all(g is o for g, o in zip(list(ar)[(1 if tgt.kind == 'method' else 0):] + [kw2[k] for k in c[1]], orig)):
+                J.bad('C12', 'keygen-altered-stored-arguments',
+                      'tol=%r deep=%r: klepto.keygen remembered %s for the call %s (call()/valid() would not see the '
+                      'caller\'s arguments)' % (tol, deep, srepr((ar, kw2))[:160], srepr(c)[:160]))
+            n0 = len(tgt.seen)
+            kg.call()
+            if len(tgt.seen) > n0:
+                seen = tgt.seen[-1]
+                if not all(any(g is o for g in flatten_seen(seen)) or isinstance(o, (int, float, str, bytes, type(None), tuple, frozenset)) and any(type(g) is type(o) and g == o and repr(g) == repr(o) for g in flatten_seen(seen)) for o in orig):
+                    J.bad('C12', 'keygen-call-altered-argument',
+                          'tol=%r deep=%r: keygen(...).call() passed %s for the call %s' % (tol, deep, srepr(seen)[:160], srepr(c)[:160]))
+        except Exception as e:
+            J.note('c12_keygen_passthrough_errors')
     want_same = _same(r1, r2) and repr(r1) == repr(r2)
     want_diff = not _same(r1, r2)
     ks1, e1 = _keys(J, tgt, f, kg, *c1)
